@@ -22,6 +22,37 @@ func checkC21(c *Ctx, r *Report) {
 	}
 	r.rule("C21.S1", "EtcdStore → InMemoryStore topic mutations happen under persistMu and are persisted (persistSnapshotLocked) before any success return", 5)
 	r.rule("C21.S2", "every etcd write of the snapshot key is a Txn conditioned on the revision read", 2)
+	r.rule("C21.S4", "refreshSnapshot installs what etcd holds: a nil return is reached only with no snapshot stored (len(Kvs)==0) or through InMemoryStore.Update of the decoded value", 1)
+	if rf := needFn(m, r, "C21.S4", pkgMetadata, "(*EtcdStore).refreshSnapshot"); rf != nil {
+		empty := Guard{cl(atomFn("len(resp.Kvs) == 0", func(l Lit) bool {
+			lc, ok := strip(l.X).(*ssa.Call)
+			k, okk := constInt(l.Y)
+			return ok && okk && calleeName(&lc.Call) == "builtin.len" && ((l.Op == token.EQL && k == 0) || (l.Op == token.LSS && k == 1) || (l.Op == token.LEQ && k == 0))
+		}))}
+		n := 0
+		for _, b := range rf.Blocks {
+			ret, ok := b.Instrs[len(b.Instrs)-1].(*ssa.Return)
+			if !ok || len(ret.Results) != 1 || !isNilConstInOrigins(ret.Results[0]) {
+				continue
+			}
+			n++
+			key := fmt.Sprintf("refreshSnapshot success return #%d has installed the snapshot it read", n)
+			if checkGuarded(m, rf, ret, empty).OK {
+				r.ok("C21.S4", key, m.Pos(ret.Pos()), "nothing stored in etcd")
+				continue
+			}
+			if ok, path := mustPassBefore(m, rf, ret, func(in ssa.Instruction) bool {
+				return isCallTo(in, "(*"+pkgMetadata+".InMemoryStore).Update")
+			}); ok {
+				r.ok("C21.S4", key, m.Pos(ret.Pos()), "after InMemoryStore.Update")
+			} else {
+				r.viol("C21.S4", key, m.Pos(ret.Pos()), "the store keeps its old view although etcd holds a snapshot: "+path+" — its next whole-snapshot write then erases what other brokers created")
+			}
+		}
+		if n == 0 {
+			r.unresolved("C21.S4", "refreshSnapshot success returns", "none found")
+		}
+	}
 	r.rule("C21.S3", "mergeSnapshots compares len(Partitions) of both sides for a topic present in both and only ever installs the longer list", 2)
 
 	mutators := map[string]bool{"CreateTopic": true, "CreatePartitions": true, "DeleteTopic": true}
